@@ -1,9 +1,35 @@
 use crate::common::*;
 
-#[derive(Deserialize, Serialize, Debug, PartialEq, Clone, Ord, PartialOrd, Eq)]
+#[derive(Serialize, Debug, PartialEq, Clone, Ord, PartialOrd, Eq)]
 #[serde(transparent)]
 pub(crate) struct FilePath {
   components: Vec<String>,
+}
+
+impl<'de> Deserialize<'de> for FilePath {
+  fn deserialize<D>(deserializer: D) -> Result<Self, D::Error>
+  where
+    D: Deserializer<'de>,
+  {
+    let components = Vec::<String>::deserialize(deserializer)?;
+
+    for component in &components {
+      let mut parsed = Path::new(component).components();
+
+      let normal = matches!(
+        (parsed.next(), parsed.next()),
+        (Some(path::Component::Normal(name)), None) if name == OsStr::new(component)
+      );
+
+      if !normal {
+        return Err(D::Error::custom(format!(
+          "invalid file path component: `{component}`",
+        )));
+      }
+    }
+
+    Ok(FilePath { components })
+  }
 }
 
 impl FilePath {
